@@ -716,3 +716,15 @@ Proof. vm_compute. reflexivity. Qed.
 
 Example ex_src_stable : set_modality_typedefs (conv (annotate ex_res ex_src)) = Ok ex_res.
 Proof. apply infer_annotation_stable_proof; apply ex_src_hyps. Qed.
+
+(* "writing the annotation explicitly" in the text: the word printed for a mode is read back as that
+   mode, and the parser's conversion of an annotated type is to_sty at that mode *)
+Lemma mode_word_roundtrip_proof m : proper m = true -> mode_of_string (mode_short m) = m.
+Proof. destruct m; try discriminate; intros _; vm_compute; reflexivity. Qed.
+
+Lemma convert_annotated_proof m t : proper m = true -> convert (Some (mode_short m)) t = to_sty m t.
+Proof. intros H. unfold convert. rewrite mode_word_roundtrip_proof; auto. Qed.
+
+Lemma annotation_word_roundtrip_proof : forall m t, proper m = true ->
+  mode_of_string (mode_short m) = m /\ convert (Some (mode_short m)) t = to_sty m t.
+Proof. intros m t H. split; [apply mode_word_roundtrip_proof | apply convert_annotated_proof]; exact H. Qed.
